@@ -6,6 +6,6 @@ CONSTANTS
   MARK <- MarkNonPos
   MaxFills = 3
 INVARIANTS TypeOK SideSize Conservation FeesConserved
-PROPERTIES ExitIff Ids QmaxAvg FreshUnreal MarkOnlyUnreal
+PROPERTIES ExitIff Ids QmaxAvg FreshUnreal MarkOnlyUnreal NoPriceStutter
 VIEW View
 CHECK_DEADLOCK FALSE
